@@ -97,6 +97,12 @@ def real_saturating(chk, tier, own):
               edges=[zoo.E("s.out", "w0.in"), zoo.E("s.out", "w1.in")], ctl={"ALL.sleep": "0.03"})
     pp["procs"][1]["prepend"] = "env VERIF_PREPENDED=1"; pp["procs"][2]["prepend"] = "env VERIF_PREPENDED=2"
     insts.append(pp)
+    # a 2-core task becomes ready while exactly ONE slot is free (it must wait holding it, not run on it): three 1-core tasks fill
+    # the three slots, the short one ends first
+    insts.append(dict(name="SATPART", max=3, bufsize=4,
+                      procs=[zoo.src("s", zoo.items(3)), zoo.cmd("w", ["in"], ["out"]), zoo.src("t", zoo.items(2, "t")), zoo.cmd("big", ["in"], ["out"], cores=2)],
+                      edges=[zoo.E("s.out", "w.in"), zoo.E("t.out", "big.in")],
+                      ctl={"w:1.sleep": "0.7", "w:2.sleep": "0.7", "w:3.sleep": "0.15", "big.sleep": "0.3"}))
     # Go-function tasks (CustomExecute) beside shell tasks, one slot and several slots, several cores per Go-function task
     insts.append(dict(name="SATGO1", max=1, bufsize=4, procs=[zoo.src("s", zoo.items(6)), zoo.cmd("g", ["in"], ["out"], kind="gofunc")],
                       edges=[zoo.E("s.out", "g.in")], ctl={"ALL.sleep": "0.05"}))
@@ -137,6 +143,11 @@ def real_saturating(chk, tier, own):
             if rr.timeout or rr.deadlock:
                 msg = "saturating workload %s (max=%d) did not finish: %s" % (inst["name"], inst["max"], "Go runtime deadlock report" if rr.deadlock else "timeout")
                 if "C07" in own: chk.violation(msg, dict(instance=ninst, variant=rr.variant, stderr=rr.stderr[-800:]))
+                # what the commands logged before the run got stuck is still evidence about concurrently executing cores
+                peak = overlap_peak(rr, inst)
+                if peak > inst["max"] and "C06" in own:
+                    chk.violation("commands' own start/end stamps show %d cores executing at once, maxConcurrentTasks=%d (%s; the run later stopped making progress)" % (peak, inst["max"], inst["name"]),
+                                  dict(instance=ninst, variant=rr.variant, cmdlog=rr.cmdlog[:60]))
                 continue
             if rr.rc != 0:
                 chk.undecided.append("saturating workload %s failed rc=%s: %s" % (inst["name"], rr.rc, rr.stderr[-200:])); continue
